@@ -280,8 +280,40 @@ def param_by_type(f, substr, default=None):
 
 
 def main_match(fn_body, ty_suffix):
-    """the dispatch match on ty_suffix: the one with the most arms (helper closures / inlined helpers may contain smaller ones)"""
+    """The dispatch match on ty_suffix as a (synthetic) match node whose arms are the innermost arms per variant: when an arm
+    `A | B | C => self.helper(..)` delegates to a helper (shown inlined by inlined_fn) that matches on the same enum again,
+    the helper's arms for A, B, C take the place of the delegating arm."""
     ms = matches_on(fn_body, ty_suffix)
     if not ms:
         return None
-    return max(ms, key=lambda m: len(m["arms"]))
+    ids = {id(m): m for m in ms}
+    nested = set()
+    for m in ms:
+        for a in m["arms"]:
+            for x in walk(a["body"]):
+                if id(x) in ids and x is not m:
+                    nested.add(id(x))
+    tops = [m for m in ms if id(m) not in nested] or ms
+    top = max(tops, key=lambda m: len(m["arms"]))
+
+    def names(arm):
+        return {last(v) for v in pat_variants(arm["pat"])}
+
+    def flat(m, depth=0):
+        out = []
+        for a in m["arms"]:
+            vs = names(a)
+            inner = [x for x in walk(a["body"]) if id(x) in ids and x is not m] if depth < 3 else []
+            cand = [x for x in inner if vs & {n for aa in x["arms"] for n in names(aa)}]
+            if cand and len(vs) > 1:
+                inn = max(cand, key=lambda x: len(x["arms"]))
+                got = [aa for aa in flat(inn, depth + 1) if names(aa) & vs]
+                covered = set().union(*[names(aa) for aa in got]) if got else set()
+                out += got
+                if vs - covered:
+                    out.append(a)  # variants the helper does not name explicitly stay with the delegating arm
+            else:
+                out.append(a)
+        return out
+
+    return dict(top, arms=flat(top))
